@@ -8,7 +8,8 @@ submit futures, lock grants) are checked against that state.
 
 Families (helpers in hsverif/c12_*.py):
   single    PaxosNode, 3-5 nodes, 1-3 proposers (+ re-proposals), retries; 12 % fault-free liveness cases
-  single_adv scripted adversary for PaxosNode: stale lower-ballot Accept reaches an acceptor after a value was chosen,
+  single_adv scripted adversaries for PaxosNode: (a) retry_delay below the round trip, Nack mid phase 2, Accepted replies of
+            the abandoned ballot arriving after the retry; (b) stale lower-ballot Accept reaches an acceptor after a value was chosen,
             third proposer's phase-1 quorum meets the choosing quorum in that acceptor only (random roles / timing)
   flex      FlexiblePaxosNode, every (Q1, Q2) with Q1 + Q2 > N
   multi     MultiPaxosNode, take-over, heartbeats
@@ -74,6 +75,6 @@ FAMILIES = {
 }
 
 BUDGET = {
-    "quick": {"single": 6000, "single_adv": 400, "flex": 400, "multi": 400, "multi_handover": 600, "election": 600, "lock": 2000},
+    "quick": {"single": 6000, "single_adv": 800, "flex": 400, "multi": 400, "multi_handover": 600, "election": 600, "lock": 2000},
     "thorough": {"single": 400000, "single_adv": 20000, "flex": 40000, "multi": 40000, "multi_handover": 20000, "election": 30000, "lock": 200000},
 }
